@@ -15,9 +15,9 @@ from concurrent.futures import ThreadPoolExecutor
 V = os.path.dirname(os.path.dirname(os.path.abspath(__file__)))
 S = os.path.join(V, "seeded")
 RELATED = {
-    "C01": ["C15"], "C02": [], "C03": [], "C04": ["C12"], "C05": ["C17"], "C06": ["C18", "C08"], "C07": ["C18", "C12"],
+    "C01": ["C15"], "C02": [], "C03": [], "C04": ["C12"], "C05": ["C17"], "C06": ["C18", "C08"], "C07": ["C18", "C12", "C06"],
     "C08": ["C06", "C07"], "C09": ["C12", "C18"], "C10": ["C06"], "C11": ["C12", "C17"], "C12": ["C11"],
-    "C13": ["C19", "C17"], "C14": [], "C15": ["C08"], "C16": [], "C17": ["C13", "C11"], "C18": ["C06"], "C19": ["C13", "C17"],
+    "C13": ["C19", "C17"], "C14": [], "C15": ["C08"], "C16": [], "C17": ["C13", "C11"], "C18": ["C06"], "C19": ["C13", "C17", "C04"],
     "C20": ["C13", "C17"],
 }
 
